@@ -1,11 +1,11 @@
 package main
 
 import (
-	"math/big"
 	"fmt"
 	"go/token"
 	"go/types"
 	"math"
+	"math/big"
 	"unicode/utf8"
 
 	"golang.org/x/tools/go/ssa"
